@@ -121,6 +121,11 @@ func parseSCPSSH(raw string, kind Kind) (*URL, error) {
 		return nil, errors.New("no hostname present")
 	}
 
+	// Reject usernames and hostnames that OpenSSH would interpret as options.
+	if resemblesOption(username) || resemblesOption(hostname) {
+		return nil, errors.New("username or hostname resembles a command line option")
+	}
+
 	// Parse off the port. This is not a standard SCP URL syntax (and even Git
 	// makes you use full SSH URLs if you want to specify a port), so we invent
 	// our own rules here, but essentially we just scan until the next colon,
